@@ -398,7 +398,16 @@ def set_default_doc(param, emit_default_doc=True):
                     else "{doc}.".format(doc=_param["doc"])
                 ),
                 default=(
-                    quote(_param["default"])
+                    quote(
+                        _param["default"],
+                        mark=(
+                            "'"
+                            if isinstance(_param["default"], str)
+                            and '"' in _param["default"]
+                            and "'" not in _param["default"]
+                            else '"'
+                        ),
+                    )
                     if (
                         needs_quoting(_param.get("typ"))
                         and (
